@@ -107,22 +107,30 @@ pub fn mint_validity(base: &str, signer: &str, nb: i64, na: i64, tag: &str) -> R
         t_at += th + tl;
     }
     // sign the TBS again
-    let key = load_key(signer);
-    let pkcs8 = match &key {
-        PrivateKeyDer::Pkcs8(k) => k.secret_pkcs8_der().to_vec(),
-        _ => return Err("signer key is not PKCS#8".into()),
-    };
-    let pair = ring::signature::RsaKeyPair::from_pkcs8(&pkcs8).map_err(|e| format!("key: {e}"))?;
     let tbs = der[tbs_at..tbs_at + tbs_h + tbs_len].to_vec();
-    let mut sig = vec![0u8; pair.public().modulus_len()];
-    pair.sign(&ring::signature::RSA_PKCS1_SHA256, &ring::rand::SystemRandom::new(), &tbs, &mut sig).map_err(|e| format!("sign: {e}"))?;
+    let sig = sign_tbs(signer, &tbs)?;
     // signature BIT STRING is the last element: 03 82 01 01 00 <256 bytes>
     let n = der.len();
     if sig.len() > n || der[n - sig.len() - 1] != 0 {
         return Err("unexpected signature layout".into());
     }
     der[n - sig.len()..].copy_from_slice(&sig);
-    // write PEM
+    write_minted(base, tag, &der)
+}
+
+fn sign_tbs(signer: &str, tbs: &[u8]) -> Result<Vec<u8>, String> {
+    let key = load_key(signer);
+    let pkcs8 = match &key {
+        PrivateKeyDer::Pkcs8(k) => k.secret_pkcs8_der().to_vec(),
+        _ => return Err("signer key is not PKCS#8".into()),
+    };
+    let pair = ring::signature::RsaKeyPair::from_pkcs8(&pkcs8).map_err(|e| format!("key: {e}"))?;
+    let mut sig = vec![0u8; pair.public().modulus_len()];
+    pair.sign(&ring::signature::RSA_PKCS1_SHA256, &ring::rand::SystemRandom::new(), tbs, &mut sig).map_err(|e| format!("sign: {e}"))?;
+    Ok(sig)
+}
+
+fn write_minted(base: &str, tag: &str, der: &[u8]) -> Result<String, String> {
     let name = format!("{base}-{tag}");
     let b64 = {
         const T: &[u8; 64] = b"ABCDEFGHIJKLMNOPQRSTUVWXYZabcdefghijklmnopqrstuvwxyz0123456789+/";
@@ -145,6 +153,91 @@ pub fn mint_validity(base: &str, signer: &str, nb: i64, na: i64, tag: &str) -> R
     std::fs::write(minted_dir().join(format!("{name}_cert.pem")), pem).map_err(|e| e.to_string())?;
     std::fs::copy(key_path(base), minted_dir().join(format!("{name}_key.pem"))).map_err(|e| e.to_string())?;
     Ok(format!("@{name}"))
+}
+
+fn der_wrap(tag: u8, content: &[u8]) -> Vec<u8> {
+    let mut out = vec![tag];
+    let n = content.len();
+    if n < 0x80 {
+        out.push(n as u8);
+    } else if n < 0x100 {
+        out.extend([0x81, n as u8]);
+    } else {
+        out.extend([0x82, (n >> 8) as u8, n as u8]);
+    }
+    out.extend_from_slice(content);
+    out
+}
+
+/// Copy of the client certificate `base` (which carries the Modbus role extension once, with the
+/// 8-character role "operator") in which that extension appears twice; `roles` gives the text of
+/// the first and the second copy (8 characters each). Signed again with `signer`.
+pub fn mint_two_roles(base: &str, signer: &str, roles: (&str, &str), tag: &str) -> Result<String, String> {
+    let chain = load_chain(base);
+    let der = chain.first().ok_or("no certificate")?.as_ref().to_vec();
+    let (_, h0, _) = der_tlv(&der, 0);
+    let (_, tbs_h, tbs_len) = der_tlv(&der, h0);
+    let tbs_content = &der[h0 + tbs_h..h0 + tbs_h + tbs_len];
+    let after_tbs = &der[h0 + tbs_h + tbs_len..];
+    // elements of the TBS; the last one is [3] extensions
+    let mut at = 0usize;
+    let mut elems: Vec<&[u8]> = vec![];
+    while at < tbs_content.len() {
+        let (_, h, l) = der_tlv(tbs_content, at);
+        elems.push(&tbs_content[at..at + h + l]);
+        at += h + l;
+    }
+    let ext_wrapper = *elems.last().ok_or("empty tbs")?;
+    if ext_wrapper[0] != 0xA3 {
+        return Err("no extensions".into());
+    }
+    let (_, wh, _) = der_tlv(ext_wrapper, 0);
+    let seq = &ext_wrapper[wh..];
+    let (_, sh, sl) = der_tlv(seq, 0);
+    let exts = &seq[sh..sh + sl];
+    const ROLE_OID_TAIL: [u8; 6] = [0x83, 0x89, 0x0C, 0x86, 0x22, 0x01];
+    let mut at = 0usize;
+    let mut out_exts: Vec<u8> = vec![];
+    let mut found = false;
+    while at < exts.len() {
+        let (_, h, l) = der_tlv(exts, at);
+        let ext = &exts[at..at + h + l];
+        at += h + l;
+        if ext.windows(6).any(|w| w == ROLE_OID_TAIL) {
+            found = true;
+            for role in [roles.0, roles.1] {
+                if role.len() != 8 {
+                    return Err("roles must have 8 characters".into());
+                }
+                let mut copy = ext.to_vec();
+                let pos = copy.windows(8).position(|w| w == b"operator").ok_or("role text not found")?;
+                copy[pos..pos + 8].copy_from_slice(role.as_bytes());
+                out_exts.extend(copy);
+            }
+        } else {
+            out_exts.extend_from_slice(ext);
+        }
+    }
+    if !found {
+        return Err("role extension not found".into());
+    }
+    let new_wrapper = der_wrap(0xA3, &der_wrap(0x30, &out_exts));
+    let mut new_tbs_content: Vec<u8> = vec![];
+    for e in &elems[..elems.len() - 1] {
+        new_tbs_content.extend_from_slice(e);
+    }
+    new_tbs_content.extend(new_wrapper);
+    let tbs = der_wrap(0x30, &new_tbs_content);
+    let sig = sign_tbs(signer, &tbs)?;
+    // after the TBS: signatureAlgorithm, then the BIT STRING
+    let (_, ah, al) = der_tlv(after_tbs, 0);
+    let alg = &after_tbs[..ah + al];
+    let mut bits = vec![0u8];
+    bits.extend(sig);
+    let mut body = tbs;
+    body.extend_from_slice(alg);
+    body.extend(der_wrap(0x03, &bits));
+    write_minted(base, tag, &der_wrap(0x30, &body))
 }
 
 /// the real-time multi-threaded runtime used by the net engine
